@@ -575,6 +575,44 @@ def run(ctx):
     if conf_cases:
         ctx.sample({"op": "confusable", "args": conf_cases[0][2], "groups": conf_cases[0][1]})
 
+    # ---- tie files: two identifier styles counted EQUALLY often (and above the file-context threshold), an ambiguous hit ----
+    #      whatever decides such a tie must be a function of the tree, not of the process (a HashMap's iteration order is
+    #      per-process: finding file_context_tie_hash_order, repaired by repo commit 40204b5)
+    for ti in range(2 if quick else 6):
+        S = rng.choice([w for w in gen.VOCAB if len(w) >= 3])
+        R = gen.render(rng.choice(["snake", "camel"]), rng.sample([w for w in gen.VOCAB if w != S], 2))
+        a, b = rng.sample(["snake", "camel", "kebab", "pascal"], 2)
+        words = [w for w in gen.VOCAB if w != S]
+        n = 30 + 2 * ti
+        lines = []
+        for k in range(n):
+            w1, w2 = words[k % len(words)], words[(k * 7 + 3) % len(words)]
+            lines.append(f"{gen.render(a, [w1, w2 + 'x' * (k // len(words))])} = {k}")
+            lines.append(f"{gen.render(b, [w2, w1 + 'y' * (k // len(words))])} = {k}")
+        lines.insert(7, f"call({S})")
+        ttree = {"notes.txt": ("f", ("\n".join(lines) + "\n").encode(), 0o644)}
+        targs = ["plan", S, R, "--dry-run"]
+        with common.scratch() as d:
+            common.materialize(d, ttree)
+            outs = []
+            for rep in range(12 if quick else 24):
+                out, err = _plan_once(d, targs, 1 + rep % 4)
+                if err:
+                    break
+                outs.append(out)
+        ctx.case(("tie", S, R, a, b, n), nontrivial=True)
+        ctx.count("tie_files")
+        diff = next((o for o in outs[1:] if o != outs[0]), None) if outs else None
+        if diff is not None:
+            x, y = _first_diff({"matches": outs[0][0], "paths": outs[0][1], "stats": outs[0][2]},
+                               {"matches": diff[0], "paths": diff[1], "stats": diff[2]})
+            ctx.violation("input", {"family": "tie", "tree": common.tree_dump(gen.tree_to_snap(ttree)), "args": targs,
+                                    "styles_counted_equally": [a, b], "identifiers_per_style": n},
+                          expected="the same plan on every run of the same command on the same tree",
+                          observed={"run_a": x, "run_b": y, "runs": len(outs)},
+                          note="two processes plan the same tree differently (no threads involved: the difference is per process)")
+            return
+
     # ---- several explicit search roots -------------------------------------------------------------
     mthreads = [1, 8] if quick else [1, 2, 4, 8, 16]
     mrepeats = 6 if quick else 8
